@@ -14,7 +14,7 @@ ID = "C04"
 LEVEL = "exploration"
 BUILDS = {"quick": ["rel", "dbg", "asan"], "thorough": ["rel", "dbg", "asan"]}
 OPTIONAL_BUILDS = ["asan"]
-BUDGET_S = {"quick": 170, "thorough": 3600}
+BUDGET_S = {"quick": 600, "thorough": 3600}
 RULE = ("Per registered suffix: token soups over that language's comment delimiters, tag fragments, quotes, brackets, "
         "line terminators and unusual Unicode; byte-level mutations (re-validated as UTF-8) of generated well-formed "
         "files and of the repository's own sources; 64 KB repetitions; git-produced diffs between two such versions, also under quoted / "
